@@ -182,6 +182,9 @@ def run(ctx, with_model=True):
                                          "impl": base[k] if k is not None else None, "model": model[k] if k is not None else None})
     if with_model:
         overlap(ctx, 4 if ctx.tier == "quick" else 40)
+        # long keys that share a long prefix, one after the other in this process: each is assigned by md5 of the whole key, whatever was hashed before
+        import choicelib
+        choicelib.run_key_lengths(ctx, 16 if ctx.tier == "quick" else 20)
 
 
 def overlap(ctx, rounds):
